@@ -63,6 +63,11 @@ class C09Antenna(Machine):
             cfg["lead_in"] = lead
             if lead == 0:
                 cfg["taps"] = rng.pick([[1.0], [2.0], [-0.5]])
+            elif lead >= 25 and rng.chance(0.4):
+                # a delay line defined in *time* (not in samples): windows of this system may
+                # use two different sample steps
+                cfg["taps"] = [1.0]
+                cfg["delay_steps"] = rng.pick([2, 4, 6])
             else:
                 cfg["taps"] = rng.pick([[1.0], [0.5], [0.0, 1.0], [0.25, 0.5, 0.25], [1.0, -1.0]])
         if kind == "dipole":
@@ -105,6 +110,7 @@ class C09Antenna(Machine):
             self.base = ant
             if cfg["kind"] == "system":
                 taps = list(cfg["taps"])
+                delay_s = cfg.get("delay_steps", 0) * dt
 
                 class FIRSystem(P.AntennaSystem):
                     lead_in_time = cfg["lead_in"] * dt
@@ -112,6 +118,11 @@ class C09Antenna(Machine):
                     def front_end(self, signal):
                         x = np.asarray(signal.values, dtype=float)
                         y = np.zeros(len(x))
+                        if delay_s:
+                            n = int(round(delay_s / (signal.times[1] - signal.times[0])))
+                            if n < len(x):
+                                y[n:] = x[:len(x) - n]
+                            return P.Signal(signal.times, y, value_type=signal.value_type)
                         for j, h in enumerate(taps):
                             if j < len(x):
                                 y[j:] += h * x[:len(x) - j]
@@ -119,10 +130,13 @@ class C09Antenna(Machine):
 
                 self.obj = FIRSystem(ant)
                 self.taps = taps
+                self.delay_s = delay_s
             else:
                 self.obj = ant
                 self.taps = [1.0]
         self.t_ref = 0.0
+        if not hasattr(self, "delay_s"):
+            self.delay_s = 0.0
         # model
         self.sigs = []          # processed antenna signals: (times, values)
         self.noise_map = {}     # absolute-time key -> observed (front-end processed) noise value
@@ -153,7 +167,8 @@ class C09Antenna(Machine):
 
     def _times(self, w):
         dt = self.cfg["dt"]
-        return self.t_ref + dt * (w["k0"] + w["frac"] / QUARTER + np.arange(w["m"]))
+        step = 0.5 if w.get("fine") else 1.0
+        return self.t_ref + dt * (w["k0"] + w["frac"] / QUARTER + step * np.arange(w["m"]))
 
     def draw_op(self, rng):
         kind = self.cfg["kind"]
@@ -167,6 +182,9 @@ class C09Antenna(Machine):
             w = self._window_spec(rng)
             if kind == "system":
                 w["frac"] = w["frac"] if rng.chance(0.3) else 0
+                if self.cfg.get("delay_steps") and rng.chance(0.4):
+                    w["fine"] = True
+                    w["frac"] = 0
             op = {"op": "receive", "w": w, "amp": rng.pick([0.1, 0.5, 1.0, 3.0]),
                   "center": rng.random(), "width": rng.pick([1.5, 4.0, 10.0]),
                   "vtype": rng.pick(["voltage", "field"]), "pair": rng.chance(0.3),
@@ -179,6 +197,9 @@ class C09Antenna(Machine):
             w = self._window_spec(rng)
             if kind == "system":
                 w["frac"] = 0 if rng.chance(0.8) else w["frac"]
+                if self.cfg.get("delay_steps") and rng.chance(0.5):
+                    w["fine"] = True
+                    w["frac"] = 0
             return {"op": k, "w": w}
         if k == "clear":
             return {"op": "clear", "reset_noise": rng.chance(0.4)}
@@ -225,7 +246,7 @@ class C09Antenna(Machine):
             if h == 0:
                 continue
             for (t, v) in sigs:
-                total += h * interp_zero(T - j * dt, t, v)
+                total += h * interp_zero(T - j * dt - self.delay_s, t, v)
         for (t, v) in sigs:
             mag += float(np.max(np.abs(v))) if len(v) else 0.0
         return total, mag * sum(abs(h) for h in self.taps)
@@ -456,7 +477,7 @@ class C09Antenna(Machine):
             dt = t[1] - t[0]
             exp = np.zeros(len(t))
             for j, h in enumerate(self.taps):
-                exp += h * interp_zero(t - j * dt, t, v)
+                exp += h * interp_zero(t - j * dt - self.delay_s, t, v)
             tol = 1e-9 * float(np.max(np.abs(v))) * sum(abs(h) for h in self.taps) + 1e-300
             if np.any(np.abs(np.asarray(s.values, dtype=float) - exp) > tol):
                 raise Violation("C09:system-signal-values",
